@@ -194,13 +194,14 @@ def run(rep, tier, seed):
         k = rng.choice([1, 2, 3, 5])
         mode = ["one", "frames", "bytes", "random"][trial % 4]
         with common.debug_logging(trial % 2 == 1):
-            got, want, err = simnet.run(lambda loop: conn_early_data_case(loop, rng, k, mode, debug=trial % 2 == 1))
-        rep.case(("conn-early", k, mode, trial), True, sample={"conn_early_data": {"messages": k, "chunking": mode, "delivered": len(got)}})
-        rep.bump("conn-early:" + mode)
+            requests = (trial // 4) % 2 == 1
+            got, want, err = simnet.run(lambda loop: conn_early_data_case(loop, rng, k, mode, debug=trial % 2 == 1, requests=requests))
+        rep.case(("conn-early", k, mode, trial), True, sample={"conn_early_data": {"messages": k, "chunking": mode, "delivered": len(got), "requests": requests}})
+        rep.bump("conn-early:" + mode + (":requests" if requests else ""))
         if got != want or err:
-            rep.violation("C03/connection-delivery", f"APIConnection over Noise, {k} message(s) encrypted right behind the handshake frame, chunking '{mode}': "
+            rep.violation("C03/connection-delivery", f"APIConnection over Noise, {k} message(s){' and a PingRequest / GetTimeRequest' if requests else ''} encrypted right behind the handshake frame, chunking '{mode}': "
                           f"delivered {got}, the responder sent {want}{' ; ' + err if err else ''}",
-                          {"kind": "impl-case", "variant": "conn-early-data", "messages": k, "chunking": mode})
+                          {"kind": "impl-case", "variant": "conn-early-data", "messages": k, "chunking": mode, "requests": requests})
     for names, expected, when in ((["dev", "other"], None, "ctor"), (["dev", "dev"], None, "ctor"), (["other", "dev"], None, "ctor"), (["dev", "dev"], "dev", "ctor"),
                                   (["dev", "other"], "dev", "ctor"), (["other", "dev"], "dev", "ctor"), (["other", "dev"], "dev", "before"), (["dev", "other"], "dev", "before"),
                                   (["other", "dev"], "dev", "between"), (["dev", "other"], "dev", "between")):
@@ -295,8 +296,9 @@ def big_frame_probe(rng, size, mode):
     return got, [(t, len(p)) for t, p in msgs]
 
 
-async def conn_early_data_case(loop, rng, k, mode, debug=False):
-    """Noise session on a real APIConnection; the device encrypts k messages immediately after its handshake frame."""
+async def conn_early_data_case(loop, rng, k, mode, debug=False, requests=False):
+    """Noise session on a real APIConnection; the device encrypts k messages immediately after its handshake frame
+    (with requests=True a PingRequest and a GetTimeRequest among them: a device may ask at once)."""
     from aioesphomeapi import api_pb2 as pb
     from aioesphomeapi.connection import APIConnection, ConnectionParams
     from aioesphomeapi.zeroconf import ZeroconfManager
@@ -326,6 +328,9 @@ async def conn_early_data_case(loop, rng, k, mode, debug=False):
             else:
                 parts.append(resp.data_frame(29, pb.SubscribeLogsResponse(message=b"m%d" % i).SerializeToString())[0])
                 want.append(("log", b"m%d" % i))
+            if requests and i == 0:
+                parts.append(resp.data_frame(7, b"")[0])
+                parts.append(resp.data_frame(36, b"")[0])
         stream = b"".join(parts)
         if mode == "one":
             chunks = [stream]
